@@ -177,6 +177,9 @@ def _load_module(name: str):
 
 def _worker_init(modname: str) -> None:
     global _MODULE
+    import warnings
+
+    warnings.simplefilter("ignore")  # third-party deprecation chatter (e.g. certificates with negative serial numbers)
     signal.signal(signal.SIGINT, signal.SIG_IGN)
     _MODULE = _load_module(modname)
     if hasattr(_MODULE, "worker_init"):
